@@ -94,25 +94,18 @@ Proof. exact call_error_iff_unknown. Qed.
     parameters, SET-*/SHIFT-* values, DELAY / RAW-CAPTURE durations, waveform parameters, matrix
     entries, DEFCAL parameters, gates of a DEFGATE AS SEQUENCE, DEFFRAME attribute values,
     PAULI-SUM coefficients) is reported as read — for expressions of any nesting depth.
-
-    The full statement is FALSE of the faithful model: [memory_accesses] does not look into the
-    attribute expressions of DEFFRAME nor the term coefficients of DEFGATE ... AS PAULI-SUM
-    (finding C27-unscanned-definition-exprs).  It holds outside that named decidable class. *)
-Definition C27_expressions_full : Prop :=
-  forall sigs i a e m,
-    accesses sigs i = Some a -> In e (all_exprs i) -> In m (memrefs e) -> In (mreg m) (a_reads a).
-
-Theorem C27_expressions_refuted :
-  exists sigs i a e m,
-    unscanned_class i = true /\
-    accesses sigs i = Some a /\ In e (all_exprs i) /\ In m (memrefs e) /\ ~ In (mreg m) (a_reads a).
-Proof. exact expressions_refuted. Qed.
-
+    Unconditional since fix 5c78b87. *)
 Theorem C27_expressions_reported :
   forall sigs i a e m,
-    unscanned_class i = false ->
-    accesses sigs i = Some a -> In e (all_exprs i) -> In m (memrefs e) -> In (mreg m) (a_reads a).
-Proof. exact exprs_reported_all. Qed.
+    accesses sigs i = Some a -> In e (instr_exprs i) -> In m (memrefs e) -> In (mreg m) (a_reads a).
+Proof. exact exprs_reported. Qed.
+
+(** Regression statement: the table as it was before the fix ([accesses_unfixed]: DEFFRAME and
+    DEFGATE AS PAULI-SUM report nothing) violates the statement above. *)
+Theorem C27_unfixed_table_refuted :
+  exists sigs i a e m,
+    accesses_unfixed sigs i = Some a /\ In e (instr_exprs i) /\ In m (memrefs e) /\ ~ In (mreg m) (a_reads a).
+Proof. exact unfixed_table_refuted. Qed.
 
 (** The explicit-stack iterator [MemoryReferences::next] yields exactly the references of the
     expression, left to right. *)
@@ -145,20 +138,15 @@ Theorem C27_tightness :
   (forall k, k < 16 -> exists i, In i ZSem.witnesses /\ ctor_id i = k).
 Proof. split; [exact witnesses_tight | exact witnesses_cover]. Qed.
 
-(** Checker verdict 0 means the reported sets are exactly the expected sets. *)
+(** Checker verdict 0 means the reported sets are exactly the table's sets. *)
 Theorem C27_checker_exact :
   forall sigs i o,
     chk_access sigs i (Some o) = 0%N ->
-    exists a, expected sigs i = Some a /\
+    exists a, accesses sigs i = Some a /\
               (forall r, In r (a_reads o) <-> In r (a_reads a)) /\
               (forall r, In r (a_writes o) <-> In r (a_writes a)) /\
               (forall r, In r (a_captures o) <-> In r (a_captures a)).
 Proof. exact chk_access_exact. Qed.
-
-(** [expected] (what the checker compares with) is [accesses] outside the known class. *)
-Theorem C27_expected_is_accesses_outside_class :
-  forall sigs i, unscanned_class i = false -> expected sigs i = accesses sigs i.
-Proof. exact expected_outside_class. Qed.
 
 (** Non-vacuity: the hypotheses are met and the conclusions are not trivial. *)
 Example C27_nonvacuous :
